@@ -296,7 +296,7 @@ fn u5_value_size() {
 	assert!(t.value_size(&TableKey::NoHash) == Some(base as u16), "U5.value_size.no_hash");
 	assert!(t.ref_size() == if rc { 4 } else { 0 });
 	assert!(k.encoded_size() == 26 && TableKey::NoHash.encoded_size() == 0);
-	kani::cover!(vs.is_none());
+	kani::cover!(vs.is_none(), "opt: no room for a key");
 	kani::cover!(vs == Some(0));
 }
 
